@@ -3,6 +3,6 @@ sys.path.insert(0,'/verif')
 from pyvc import check
 pid=sys.argv[1]; focus=sys.argv[2].split(',') if len(sys.argv)>2 and sys.argv[2] else None
 root=sys.argv[3] if len(sys.argv)>3 else None
-agg, failure = check.bounded_search(pid, focus, float(sys.argv[4]) if len(sys.argv)>4 else 15, 0, root)
+agg, failure = check.bounded_search(pid, focus, float(sys.argv[4]) if len(sys.argv)>4 else 15, int(sys.argv[5]) if len(sys.argv)>5 else 0, root)
 print({k:v for k,v in agg.items() if k!='sample'})
 print(json.dumps(failure, indent=1))
